@@ -382,8 +382,10 @@ class Run:
         luck), then report through finish() like any other divergence."""
         kind, frame, excerpt = crash
         self._in_crash = True
-        again = False
-        for _ in range(3):
+        # under the race detector the cases are concurrent executions: whether a fatal "concurrent map writes" strikes again
+        # is a matter of scheduling, and the stack in the server's code is evidence enough (like a race report)
+        again = bool(race)
+        for _ in range(0 if race else 3):
             try:
                 self.harness(command, cases, race=race, args=args, env_extra=env_extra)
             except ServerCrash:
